@@ -12,3 +12,11 @@ impl NameGenerator {
         TypeVariable::new(name)
     }
 }
+
+// verification hook (properties C02/C16): the number the next fresh type variable will get
+#[cfg(feature = "verif")]
+impl NameGenerator {
+    pub(crate) fn verif_c02_counter(&self) -> u64 {
+        self.counter
+    }
+}
